@@ -103,8 +103,8 @@ def run(ctx) -> None:
     # each element is self.start.add/subtract(...): the month-end clamp of helpers.add_duration and what it relies on
     from ..rules import addduration as AD
     from . import C15
-    AD.month_clamp_order(ctx)
-    C15.clamp_dependencies(ctx)
+    ctx.step(AD.month_clamp_order, ctx)
+    ctx.step(C15.clamp_dependencies, ctx)
     ctx.expect_min("RANGE", 10)
     ctx.expect_min("ORDER.clamp", 5)
     _ = un
